@@ -289,6 +289,9 @@ def run_case(case, want_trace=False):
                     continue
                 g1 = m["copies"][1] - m["copies"][0]
                 t_give = m["copies"][0] + g1 * 31
+                # the exchange may have been dropped before that: a transport error for the remote or the shutdown cancel it
+                if any(k_ in ("icmp", "shutdown") and m["t"] <= t_ <= t_give and (k_ == "shutdown" or src_ == dst) for _o, t_, k_, src_, _f in timeline):
+                    continue
                 for g in regs:
                     if g["key"][0] == dst and g["t_start"] <= t_give and (g["t_end"] is None or g["t_end"] > t_give):
                         g["t_end"], g["cause"] = t_give, "timeout"
